@@ -1,5 +1,8 @@
 SPECIFICATION Spec
 CONSTANT Depth = 2
+CONSTANT Threads = {"main"}
+CONSTANT FuncSel <- AllFuncs
+CONSTANT AssignSel <- AssignValues
 CONSTANT DebugOn = FALSE
 INVARIANT Emit
 INVARIANT OptimisedMeansOff
@@ -7,6 +10,7 @@ INVARIANT SwitchIsLastValid
 INVARIANT NeverRejectsValid
 INVARIANT OffMeansOff
 INVARIANT OnRejectsInvalid
+INVARIANT OneSwitchPerProcess
 PROPERTY InvalidAssignKeeps
 PROPERTY CallsKeepSwitch
 CHECK_DEADLOCK FALSE
